@@ -470,8 +470,8 @@ func ReachAvoiding(fn *ssa.Function, cut map[Edge]bool) map[*ssa.BasicBlock]bool
 	for len(work) > 0 {
 		b := work[len(work)-1]
 		work = work[:len(work)-1]
-		for _, s := range b.Succs {
-			if cut[Edge{b, s}] || seen[s] {
+		for i, s := range b.Succs {
+			if cut[Edge{b, s}] || seen[s] || DeadEdge(b, i) {
 				continue
 			}
 			seen[s] = true
@@ -495,8 +495,8 @@ func ReachFrom(starts []*ssa.BasicBlock, cut map[Edge]bool) map[*ssa.BasicBlock]
 	for len(work) > 0 {
 		b := work[len(work)-1]
 		work = work[:len(work)-1]
-		for _, s := range b.Succs {
-			if cut[Edge{b, s}] || seen[s] {
+		for i, s := range b.Succs {
+			if cut[Edge{b, s}] || seen[s] || DeadEdge(b, i) {
 				continue
 			}
 			seen[s] = true
@@ -565,8 +565,8 @@ func PathAvoiding(fn *ssa.Function, from ssa.Instruction, stop, bad func(ssa.Ins
 		if blocked {
 			continue
 		}
-		for _, s := range cur.b.Succs {
-			if cut[Edge{cur.b, s}] || seenTop[s] {
+		for i, s := range cur.b.Succs {
+			if cut[Edge{cur.b, s}] || seenTop[s] || DeadEdge(cur.b, i) {
 				continue
 			}
 			seenTop[s] = true
@@ -659,4 +659,23 @@ func RetResults(ret *ssa.Return) []ssa.Value {
 		}
 	}
 	return out
+}
+
+// DeadEdge reports whether the i-th successor edge of b is never taken
+// because b ends in an If on a constant condition (go/ssa does not fold
+// `if constExpr && x`).
+func DeadEdge(b *ssa.BasicBlock, i int) bool {
+	if len(b.Instrs) == 0 || len(b.Succs) != 2 {
+		return false
+	}
+	iff, ok := b.Instrs[len(b.Instrs)-1].(*ssa.If)
+	if !ok {
+		return false
+	}
+	c, ok := iff.Cond.(*ssa.Const)
+	if !ok || c.Value == nil || c.Value.Kind() != constant.Bool {
+		return false
+	}
+	v := constant.BoolVal(c.Value)
+	return (v && i == 1) || (!v && i == 0)
 }
